@@ -13,7 +13,6 @@ import KlogV.Model.Prettify
 import KlogV.Model.Warnings
 import KlogV.Model.ConfigFile
 import KlogV.Gen.Themes
-import KlogV.Gen.GoSrc
 open KlogV
 
 def optStr {α} (f : α → String) : Option α → String
@@ -178,48 +177,7 @@ def stylerOf (theme : String) : Styler :=
         | none => [],
     reset := match rows.head? with | some r => r.2.2.2.2.2.toList | none => [] }
 
-/-! ### `gs.*`: the same questions answered by the TRANSLATED Go source (KlogV/Gen/GoSrc.lean); the harness compares the
-answers with the running code, which validates the translator and the Go-semantics prelude. -/
-
-def gRes {α} (f : α → String) : Go.G α → String
-  | .ok a => f a
-  | .error (.err _) => "err"
-  | .error .panic => "panic"
-
-def gsCanonTime (t : GoSrc.time) : String := s!"{t.hour}:{t.minute}:{t.dayShift}:{b01 t.format.Use24HourClock}"
-def gsStr (x : Go.G Go.Str) : String := match x with | .ok s => String.ofList s | .error (.err _) => "<err>" | .error .panic => "<panic>"
-def gsInt (x : Go.G Int) : String := match x with | .ok s => toString s | .error (.err _) => "<err>" | .error .panic => "<panic>"
-def gsTimeOfArgs (h m s f : String) : GoSrc.time := ⟨h.toInt!, m.toInt!, s.toInt!, ⟨f == "1"⟩⟩
-def gsGroups (toks : List String) : List Go.Str := toks.map (fun t => if t == "-" then [] else decodeGo (bytesOfHex t))
-
-def handleGs (args : List String) : Option String :=
-  match args with
-  | "gs.time" :: h :: groups =>
-    some (gRes (fun t => "ok " ++ gsCanonTime t ++ " " ++ gsStr t.ToString ++ " " ++ gsInt (t.MidnightOffset >>= fun d => d.InMinutes))
-      (GoSrc.NewTimeFromString (fun _ => gsGroups groups) (decodeGo (bytesOfHex h))))
-  | "gs.dur" :: h :: groups =>
-    some (gRes (fun d => "ok " ++ gsInt d.InMinutes ++ " " ++ gsStr d.ToString ++ " " ++ gsStr d.ToStringWithSign)
-      (GoSrc.NewDurationFromString (fun _ => gsGroups groups) (decodeGo (bytesOfHex h))))
-  | ["gs.timeplus", h, m, s, f, d] =>
-    some (gRes (fun t => "ok " ++ gsCanonTime t ++ " " ++ gsStr t.ToString)
-      (do let dur ← GoSrc.NewDuration 0 d.toInt!; (gsTimeOfArgs h m s f).Plus dur))
-  | ["gs.range", h1, m1, s1, h2, m2, s2] =>
-    some (gRes (fun r => "ok " ++ gsInt (r.Duration >>= fun d => d.InMinutes) ++ " " ++ gsStr r.ToString)
-      (GoSrc.NewRange (gsTimeOfArgs h1 m1 s1 "1") (gsTimeOfArgs h2 m2 s2 "1")))
-  | ["gs.rounding", h] => some (gRes (fun r => s!"ok {r.val}") (GoSrc.NewRoundingFromString (decodeGo (bytesOfHex h))))
-  | ["gs.round", h, m, s, v] => some (gRes (fun t => "ok " ++ gsCanonTime t) (GoSrc.RoundToNearest (gsTimeOfArgs h m s "1") ⟨v.toInt!⟩))
-  | ["gs.newdur", h, m] => some (gRes (fun d => s!"ok {d.minutes}") (GoSrc.NewDuration h.toInt! m.toInt!))
-  | ["gs.durarith", a, b] =>
-    let da : GoSrc.duration := ⟨a.toInt!, ⟨false, 0⟩⟩
-    let db : GoSrc.duration := ⟨b.toInt!, ⟨false, 0⟩⟩
-    some (gRes (fun d => s!"{d.minutes}") (da.Plus db) ++ " " ++ gRes (fun d => s!"{d.minutes}") (da.Minus db) ++ " " ++ gsStr da.ToString ++ " " ++ gsStr da.ToStringWithSign)
-  | ["gs.translated"] => some (" ".intercalate GoSrc.translated)
-  | _ => none
-
 def handle (u : UTab) (args : List String) : String :=
-  match handleGs args with
-  | some r => r
-  | none =>
   match args with
   | "table" :: ncols :: sep :: cells =>
     let cs : List Cell := cells.filterMap (fun c => match c.splitOn ":" with
